@@ -170,6 +170,25 @@ def gen_blocks(rng, size):
             val = rng.choice(["1e3", "1e-3", "2^10", "1|60", "12"])
         blocks.append("%s%s %s" % (p, "-" if rng.random() < 0.5 else "--", val))
         pnames.append(p)
+    # names that split into prefix + unit in more than one way (d + au / da + u; the prefixes and the units
+    # are all uniquely named, only a *reference* is ambiguous): the loader must resolve them the same way
+    # whatever the order of the prefix and unit definitions
+    if rng.random() < 0.6:
+        a, b = rng.choice([("x", "xy"), ("d", "da"), ("k", "ki"), ("m", "mi")])
+        rest_a, rest_b = rng.choice([("yz", "z"), ("au", "u"), ("in", "n")]) if a != "x" else ("yz", "z")
+        if a == "d":
+            rest_a, rest_b = "au", "u"
+        elif a in ("k", "m"):
+            rest_a, rest_b = "in", "n"
+        # prefix a + unit rest_a  ==  prefix b + unit rest_b  as strings
+        if a + rest_a == b + rest_b:
+            blocks.append("%s-- %s" % (a, rng.choice(["1|10", "1e3", "7"])))
+            blocks.append("%s-- %s" % (b, rng.choice(["10", "1e-3", "3"])))
+            blocks.append("%s %d %s" % (rest_a, rng.randrange(2, 99), bases[0]))
+            blocks.append("%s %d %s" % (rest_b, rng.randrange(2, 99), bases[-1]))
+            blocks.append("amb1 3 %s" % (a + rest_a))
+            blocks.append("amb2 %s / 5" % (a + rest_a))
+            units += [rest_a, rest_b]
     shape = rng.choice(["chain", "fan", "diamond", "mixed"])
     n = size
     for i in range(n):
